@@ -627,6 +627,8 @@ class Array(metaclass=MetaArray):
                     + cls._data_offset
                     + get_offset(index, self._strides)
                 )
+            if hasattr(cls._itemtype, "_check_update"):
+                cls._itemtype._check_update(self._buffer, offset, value)
             cls._itemtype._to_buffer(self._buffer, offset, value)
 
     def _update(self, value):
@@ -642,7 +644,13 @@ class Array(metaclass=MetaArray):
                     f"shape {tuple(shape)} of {value} is incompatible "
                     f"with shape {tuple(self._shape)} of {self}"
                 )
-        self.__class__._to_buffer(self._buffer, self._offset, value)
+        info = self.__class__._inspect_args(value)
+        if info.size > self._get_size():
+            raise ValueError(
+                f"{value} needs {info.size} bytes and does not fit in the "
+                f"{self._get_size()} bytes of {self}"
+            )
+        self.__class__._to_buffer(self._buffer, self._offset, value, info)
 
     def _get_offset(self, index):
         if isinstance(index, (int, np.integer)):
